@@ -39,6 +39,7 @@ pub enum G {
     End,
     Empty,
     Cust(usize, bool),
+    Ext(usize, bool),
     Probe(i64),
     CfgJust,
     CfgJustR,
@@ -184,6 +185,7 @@ impl G {
             "end" => G::End,
             "empty" => G::Empty,
             "cust" => G::Cust(us(&a[1]), a[2].as_bool().unwrap_or(false)),
+            "ext" => G::Ext(us(&a[1]), a[2].as_bool().unwrap_or(false)),
             "probe" => G::Probe(a[1].as_i64().unwrap_or(0)),
             "cfgjust" => G::CfgJust,
             "cfgjustr" => G::CfgJustR,
